@@ -217,6 +217,10 @@ type Opts struct {
 	ValidOnly bool
 	// NoFoldOnly: do not draw the Upgrade values of UpgradeFoldOnly.
 	NoFoldOnly bool
+	// MinExtra is the least number of well-formed extra (non-websocket) header
+	// lines; up to MinExtra+3 are drawn. With MinExtra > 0 the extra lines are
+	// also spread before, between and after the websocket headers more often.
+	MinExtra int
 }
 
 // Gen draws a response for a dialer that requested cfg: a valid response with
@@ -295,6 +299,9 @@ func Gen(t *rapid.T, label string, cfg Config, o Opts) *Response {
 	{
 		// well-formed extra headers, names that do not collide with the five special ones
 		n := rapid.IntRange(0, 4).Draw(t, L("nextra")) - 1
+		if o.MinExtra > 0 {
+			n = o.MinExtra + rapid.IntRange(0, 3).Draw(t, L("nextramore"))
+		}
 		for i := 0; i < n; i++ {
 			name := Token(t, L("xname"), extraNames)
 			if _, special := canonicalName[asciiLower(name)]; special {
@@ -472,7 +479,7 @@ func Gen(t *rapid.T, label string, cfg Config, o Opts) *Response {
 	for _, g := range [][]Line{ups, conns, accs, protos, exts, others} {
 		lines = append(lines, g...)
 	}
-	if len(lines) > 1 && rapid.Bool().Draw(t, L("shuffle")) {
+	if len(lines) > 1 && (rapid.Bool().Draw(t, L("shuffle")) || (o.MinExtra > 0 && rapid.IntRange(0, 3).Draw(t, L("shufflemore")) > 0)) {
 		lines = rapid.Permutation(lines).Draw(t, L("order"))
 	}
 	r.Lines = lines
